@@ -1167,3 +1167,270 @@ Proof.
   - rewrite !map_app. cbn. now rewrite Hk.
 Qed.
 
+Lemma filter_all_members s : forall m, (forall x, In x m -> In x s) ->
+  filter (fun n => negb (mem_str n s)) m = [].
+Proof.
+  induction m as [|x m IH]; cbn; intros H; [reflexivity|].
+  assert (E : mem_str x s = true) by (apply mem_str_In, H; now left).
+  rewrite E. cbn. apply IH. intros y Hy. apply H. now right.
+Qed.
+
+Lemma dict_get_typed_cd (l : typed_spec) n c ty :
+  NoDup (tnames l) -> In (n, c, ty) l ->
+  dict_get (map (fun e : string * cattr * string => (fst (fst e), BVField (snd (fst e)))) l) n
+    = Some (BVField c) /\
+  dict_get (map (fun e : string * cattr * string => (fst (fst e), snd e)) l) n = Some ty.
+Proof.
+  induction l as [|[[n' c'] ty'] l IH]; cbn; intros Hn Hin; [contradiction|].
+  inversion Hn as [|? ? H1 H2]; subst.
+  destruct Hin as [E|Hin].
+  - inversion E; subst. now rewrite String.eqb_refl.
+  - destruct (String.eqb n n') eqn:E.
+    + apply String.eqb_eq in E. subst. exfalso. apply H1.
+      unfold tnames. apply in_map_iff. exists (n', c, ty). auto.
+    + now apply IH.
+Qed.
+
+Lemma frontends_these_vs_annotations_l pre auto (l : typed_spec) :
+  NoDup (tnames l) ->
+  Forall (fun e => is_class_var pre (snd e) = false /\ a_type (ca_attr (snd (fst e))) = None) l ->
+  own_attrs pre None true (body_ann l) = own_attrs pre (Some (these_of l)) auto [].
+Proof.
+  intros Hn Hl. unfold own_attrs, namespace. rewrite namespace_body_ann_gen by (cbn; auto).
+  cbn [app fold_left ca_list fst snd].
+  set (cd := map (fun e : string * cattr * string => (fst (fst e), BVField (snd (fst e)))) l).
+  set (an := map (fun e : string * cattr * string => (fst (fst e), snd e)) l).
+  assert (Han : annot_names pre an = tnames l).
+  { unfold annot_names, an, tnames. clear -Hl.
+    induction Hl as [|[[n c] ty] l [H1 _] _ IH]; cbn; [reflexivity|].
+    cbn in H1. rewrite H1. cbn. now rewrite IH. }
+  assert (Hca : map fst (counting_attrs cd) = tnames l).
+  { unfold cd, tnames. clear. induction l as [|[[n c] ty] l IH]; cbn; [reflexivity | now rewrite IH]. }
+  unfold ca_list_auto, unannotated. rewrite Han, Hca.
+  rewrite filter_all_members by auto.
+  (* now both sides are a map_result over l *)
+  assert (Hgen : forall l', (forall e, In e l' -> In e l) ->
+     map_result (fun e => from_counting_attr (fst e) (snd e) (dict_get an (fst e)))
+       (map (auto_entry cd) (tnames l')) =
+     map_result (fun e => from_counting_attr (fst e) (snd e) (dict_get [] (fst e))) (these_of l')).
+  { induction l' as [|[[n c] ty] l' IH]; intros Hsub; [reflexivity|].
+    cbn [tnames map these_of map_result fst snd].
+    destruct (dict_get_typed_cd l n c ty Hn (Hsub _ (or_introl eq_refl))) as [E1 E2].
+    fold cd in E1. fold an in E2.
+    assert (Hae : auto_entry cd n = (n, c)) by (unfold auto_entry; now rewrite E1).
+    rewrite Hae. cbn [fst snd]. rewrite E2.
+    assert (Hty : a_type (ca_attr c) = None).
+    { eapply Forall_forall in Hl; [|apply (Hsub _ (or_introl eq_refl))]. apply Hl. }
+    unfold from_counting_attr at 1 3. rewrite Hty. cbn [dict_get with_type ca_attr].
+    fold (tnames l'). fold (these_of l').
+    rewrite IH by (intros e He; apply Hsub; now right).
+    reflexivity. }
+  apply Hgen. auto.
+Qed.
+
+(** ** [_is_class_var]: the documented spellings, bare and quoted *)
+
+Lemma prefix_app p s : String.prefix p (p ++ s)%string = true.
+Proof.
+  induction p as [|c p IH]; cbn; [now destruct s|].
+  destruct (ascii_dec c c) as [_|Hne]; [exact IH | now contradiction Hne].
+Qed.
+
+Lemma last_char_snoc x c : last_char (x ++ String c "")%string = Some c.
+Proof.
+  induction x as [|a x IH]; cbn; [reflexivity|].
+  destruct x as [|b x]; cbn in *; [reflexivity | exact IH].
+Qed.
+
+Lemma drop_last_snoc x c : drop_last (x ++ String c "")%string = x.
+Proof.
+  induction x as [|a x IH]; cbn; [reflexivity|].
+  destruct x as [|b x]; cbn in *; [reflexivity | now rewrite IH].
+Qed.
+
+Lemma classvar_documented_l p s :
+  In p documented_prefixes -> is_class_var documented_prefixes (p ++ s)%string = true.
+Proof.
+  intros Hp. unfold is_class_var. apply existsb_exists. exists p. split; [assumption|].
+  assert (E : unquote (p ++ s)%string = (p ++ s)%string).
+  { cbn in Hp. repeat (destruct Hp as [<-|Hp]; [reflexivity|]). contradiction. }
+  rewrite E. apply prefix_app.
+Qed.
+
+Lemma classvar_documented_quoted_l p s q1 q2 :
+  In p documented_prefixes -> is_quote q1 = true -> is_quote q2 = true ->
+  is_class_var documented_prefixes (String q1 ((p ++ s) ++ String q2 ""))%string = true.
+Proof.
+  intros Hp H1 H2. unfold is_class_var. apply existsb_exists. exists p. split; [assumption|].
+  assert (E : unquote (String q1 ((p ++ s) ++ String q2 ""))%string = (p ++ s)%string).
+  { unfold unquote. cbn [first_char opt_is_quote]. rewrite H1.
+    change (String q1 ((p ++ s) ++ String q2 ""))%string
+      with ((String q1 (p ++ s)) ++ String q2 "")%string at 1.
+    rewrite last_char_snoc. cbn [opt_is_quote andb str_tail]. rewrite H2.
+    apply drop_last_snoc. }
+  rewrite E. apply prefix_app.
+Qed.
+
+(** ** Own names are a dict's keys: duplicate-free without any hypothesis on bodies *)
+
+Lemma dict_set_keys {V} (d : list (string * V)) k v :
+  map fst (dict_set d k v) = if mem_str k (map fst d) then map fst d else map fst d ++ [k].
+Proof.
+  induction d as [|[k' v'] d IH]; cbn; [reflexivity|].
+  destruct (String.eqb k k') eqn:E; cbn.
+  - apply String.eqb_eq in E. now subst.
+  - rewrite IH. now destruct (mem_str k (map fst d)).
+Qed.
+
+Lemma dict_set_nodup {V} (d : list (string * V)) k v :
+  NoDup (map fst d) -> NoDup (map fst (dict_set d k v)).
+Proof.
+  intros H. rewrite dict_set_keys. destruct (mem_str k (map fst d)) eqn:E; [assumption|].
+  apply mem_str_false in E. apply NoDup_app_intro; auto.
+  - constructor; [intros [] | constructor].
+  - intros x Hx [->|[]]. contradiction.
+Qed.
+
+Lemma namespace_nodup_gen body : forall cd anns,
+  NoDup (map fst cd) -> NoDup (map fst anns) ->
+  NoDup (map fst (fst (fold_left exec_stmt body (cd, anns)))) /\
+  NoDup (map fst (snd (fold_left exec_stmt body (cd, anns)))).
+Proof.
+  induction body as [|s body IH]; cbn; intros cd anns H1 H2; [auto|].
+  apply IH.
+  - destruct (s_val s); auto using dict_set_nodup.
+  - destruct (s_ann s); auto using dict_set_nodup.
+Qed.
+
+Lemma namespace_nodup body :
+  NoDup (map fst (fst (namespace body))) /\ NoDup (map fst (snd (namespace body))).
+Proof. apply namespace_nodup_gen; constructor. Qed.
+
+Lemma counting_attrs_keys cd n : In n (map fst (counting_attrs cd)) -> In n (map fst cd).
+Proof.
+  induction cd as [|[k v] cd IH]; cbn; [auto|].
+  destruct v; cbn; intros H; [destruct H; auto | auto | auto].
+Qed.
+
+Lemma counting_attrs_nodup cd : NoDup (map fst cd) -> NoDup (map fst (counting_attrs cd)).
+Proof.
+  induction cd as [|[k v] cd IH]; cbn; intros H; [constructor|].
+  inversion H as [|? ? H1 H2]; subst.
+  destruct v; cbn; auto. constructor; auto. intros Hi. apply H1. now apply counting_attrs_keys.
+Qed.
+
+Lemma nodup_map_filter {A B} (f : A -> B) p l : NoDup (map f l) -> NoDup (map f (filter p l)).
+Proof.
+  induction l as [|x l IH]; cbn; intros H; [constructor|].
+  inversion H as [|? ? H1 H2]; subst. destruct (p x); cbn; auto.
+  constructor; auto. intros Hi. apply H1. apply in_map_iff in Hi as (y & Hy & Hin).
+  apply filter_In in Hin as [Hin _]. apply in_map_iff. eauto.
+Qed.
+
+Lemma ca_list_nodup pre these auto body l :
+  (forall th, these = Some th -> NoDup (map fst th)) ->
+  ca_list pre these auto (fst (namespace body)) (snd (namespace body)) = Ok l ->
+  NoDup (map fst l).
+Proof.
+  intros Ht. destruct (namespace_nodup body) as [H1 H2].
+  unfold ca_list. destruct these as [th|].
+  - intros E; inversion E; subst. now apply Ht.
+  - destruct auto.
+    + unfold ca_list_auto. destruct (unannotated _ _ _); [|discriminate].
+      intros E; inversion E; subst. rewrite map_map.
+      rewrite (map_ext _ (fun n => n)), map_id.
+      2:{ intros n; unfold auto_entry;
+          destruct (dict_get (fst (namespace body)) n) as [[c|d|]|]; reflexivity. }
+      unfold annot_names. now apply nodup_map_filter.
+    + intros E; inversion E; subst.
+      eapply Permutation_NoDup; [apply Permutation_map, sort_perm|].
+      now apply counting_attrs_nodup.
+Qed.
+
+Lemma own_names_nodup_l pre these auto body own :
+  (forall th, these = Some th -> NoDup (map fst th)) ->
+  own_attrs pre these auto body = Ok own -> NoDup (names own).
+Proof.
+  intros Ht H. destruct (own_attrs_spec _ _ _ _ _ H) as (_ & l & Hl & Hn).
+  rewrite Hn. eapply ca_list_nodup; eauto.
+Qed.
+
+(** Every field exactly once, for every class statement without a transformer. *)
+Lemma decorate_fields_nodup_l pre t k d res :
+  d_ft d = None ->
+  (forall th, d_these d = Some th -> NoDup (map fst th)) ->
+  decorate pre t k d = Ok res -> NoDup (names res).
+Proof.
+  intros Hft Ht.
+  assert (Hcall : forall auto, attrs_call pre t k d auto = Ok res -> NoDup (names res)).
+  { intros auto. unfold attrs_call.
+    destruct (own_attrs pre (d_these d) auto (k_body k)) as [own|] eqn:Eo; [|discriminate].
+    rewrite Hft.
+    destruct (transform_attrs t (k_mro k) (d_by_mro d) (d_kw_only d) None own) as [l|] eqn:Et;
+      [|discriminate].
+    destruct (nodupb _); [|discriminate]. intros E; inversion E; subst.
+    eapply fields_nodup_l; [|exact Et]. eapply own_names_nodup_l; eauto. }
+  unfold decorate. destruct (d_auto d); eauto.
+  destruct (attrs_call pre t k d true) as [l|e] eqn:E.
+  - intros E2; inversion E2; subst. eauto.
+  - destruct e; try discriminate. eauto.
+Qed.
+
+(** ** Non-vacuity examples *)
+
+Example sort_example :
+  sort_by_counter [("b", CA 41 (fld "b")); ("a", CA 7 (fld "a")); ("c", CA 1000 (fld "c"))]
+  = [("a", CA 7 (fld "a")); ("b", CA 41 (fld "b")); ("c", CA 1000 (fld "c"))].
+Proof. reflexivity. Qed.
+
+Example source_order_example :
+  let l := [("b", CA 7 (fld "b")); ("a", CA 41 (fld "a")); ("c", CA 1000 (fld "c"))] in
+  NoDup (map fst l) /\
+  StronglySorted (fun x y => (ca_counter (snd x) < ca_counter (snd y))%Z) l /\
+  option_map names
+    (match own_attrs [] None false (body_ib l) with Ok o => Some o | Err _ => None end)
+  = Some ["b"; "a"; "c"].
+Proof.
+  cbv zeta. split; [|split; [|reflexivity]].
+  - repeat constructor; cbn; intuition discriminate.
+  - repeat constructor; cbn; lia.
+Qed.
+
+(** define: annotated-only, field()-only, mixed (annotated plain attribute + unannotated
+    field()), ClassVar-annotated. *)
+Definition dfn (body : list stmt) : classdef :=
+  Cl 0 [] body (Some (De true false None AutoInfer None)).
+Definition dfn_names (body : list stmt) : option (list string) :=
+  match decorate documented_prefixes [] (dfn body) (De true false None AutoInfer None) with
+  | Ok l => Some (names l) | Err _ => None end.
+
+Example define_annotated_only :
+  dfn_names [St "a" (Some "int") BVNone; St "b" (Some "int") (BVPlain DValue)] = Some ["a"; "b"].
+Proof. reflexivity. Qed.
+Example define_fields_only :
+  dfn_names [St "a" None (BVField (CA 2 (fld "a"))); St "b" None (BVField (CA 1 (fld "b")))]
+  = Some ["b"; "a"].
+Proof. reflexivity. Qed.
+Example define_mixed :
+  dfn_names [St "a" (Some "int") (BVPlain DValue); St "b" None (BVField (CA 1 (fld "b")))]
+  = Some ["b"].
+Proof. reflexivity. Qed.
+Example define_classvar :
+  dfn_names [St "a" (Some "typing.ClassVar[int]") (BVPlain DValue);
+             St "q" (Some "'ClassVar[int]'") (BVPlain DValue);
+             St "b" (Some "int") (BVField (CA 1 (fld "b")))]
+  = Some ["b"].
+Proof. reflexivity. Qed.
+
+Example alias_examples :
+  map (fun n => a_alias (resolve_alias (set_name (fld "v") n))) ["a"; "_d"; "__e"; "_K2__e"]
+  = [Some "a"; Some "d"; Some "e"; Some "K2__e"].
+Proof. reflexivity. Qed.
+
+Example order_check_example :
+  let own := [set_name (ib None DValue true None false None) "a";
+              set_name (ib None DNothing true None false None) "b"] in
+  transform_attrs [] [] true false None own = Err EValue /\
+  (exists r, transform_attrs [] [] true true None own = Ok r) /\
+  (exists r, transform_attrs [] [] true false (Some (@rev attribute)) own = Ok r).
+Proof. cbv zeta. repeat split; eexists; reflexivity. Qed.
